@@ -425,7 +425,25 @@ pub fn run_c04(a: &Args, shared: &SharedReport) {
             }
         }
         check_family(r, "dense-nat-map", &dm, true);
+        // side by side: which of two adjacent maps holds a value must reach the hasher
+        let dpairs: Vec<((DenseNatMap<usize, u8>, DenseNatMap<usize, u8>), String)> = dm.iter().step_by(3).flat_map(|(a, ca)| dm.iter().step_by(3).map(move |(b, cb)| ((a.clone(), b.clone()), format!("{ca}|{cb}")))).collect();
+        check_family(r, "tuple-of-dense-nat-maps", &dpairs, false);
+        let dvecs: Vec<(Vec<DenseNatMap<usize, u8>>, String)> = dpairs.iter().map(|((a, b), c)| (vec![a.clone(), b.clone()], c.clone())).chain(dm.iter().step_by(3).map(|(a, c)| (vec![a.clone()], c.clone()))).collect();
+        check_family(r, "vec-of-dense-nat-maps", &dvecs, false);
     });
+    // 8b. networks side by side (two networks of one kind in a tuple)
+    for kind in [NetKind::Ordered, NetKind::NonDup, NetKind::Dup] {
+        mine(shared, &mut |r| {
+            let nets = networks(kind, if th { 2 } else { 1 });
+            let mut vals = Vec::new();
+            for a in &nets {
+                for b in &nets {
+                    vals.push(((net_to_real(a), net_to_real(b)), format!("{:?} || {:?}", a, b)));
+                }
+            }
+            check_family(r, &format!("tuple-of-networks-{:?}", kind), &vals, false);
+        });
+    }
     // 9. ActorModelState: all pairs of constructed states per kind
     for kind in [NetKind::Ordered, NetKind::NonDup, NetKind::Dup] {
         mine(shared, &mut |r| {
